@@ -29,6 +29,8 @@ func init() {
 		},
 		Run:     run,
 		Require: []string{"queries_nontrivial", "queries_with_dir_filter", "queries_lowmem"},
+		// the only check that draws IPv6 addresses with 12 trailing zero bytes (see gen/tz6.go)
+		Env: func(tier, variant string) []string { return []string{"VERIF_GEN_TZ6=1"} },
 	})
 }
 
@@ -231,10 +233,23 @@ func CheckQuery(c *fw.Case, dbPath string, db *gen.RefDB, q Query, live map[stri
 		return want
 	}
 	got, dup := ref.FromResult(res.Rows, q.Spec)
+	d := ref.Diff(want, got)
+	if dup != "" || d != "" {
+		// One recorded defect has its own oracle clause (known_findings.txt): an IPv6 address with 12
+		// trailing zero bytes is rendered as the IPv4 address of its first 4 bytes. The deviation is
+		// attributed to it only if applying exactly that rendering to the expected rows yields exactly
+		// the returned rows (a split group only if the rendering makes two expected groups collide);
+		// everything else keeps its own signature.
+		if tz, changed := ref.RenderTrailingZeroV6AsV4(want); changed && ref.Diff(tz, got) == "" && (dup == "" || len(tz) < len(want)) {
+			c.Violatef("render|v6_trailing_zero_bytes_as_v4", "%s: IPv6 address with 12 trailing zero bytes returned as IPv4: %s %s", q.Describe(), d, dup)
+			c.Count("known_render_defect_observed", 1)
+			want, d, dup = tz, "", ""
+		}
+	}
 	if dup != "" {
 		c.Violatef("group_split|"+CondClass(q), "%s: two result rows share the group key %s", q.Describe(), dup)
 	}
-	if d := ref.Diff(want, got); d != "" {
+	if d != "" {
 		c.Violatef("rows|"+ref.DiffClass(want, got)+"|"+CondClass(q), "%s: %s", q.Describe(), d)
 		return want
 	}
